@@ -1,7 +1,116 @@
-import Rare.Model.C04
+import Rare.Proofs.C04
+/-!
+# C04 — line splitting is exact; returned line buffers are never overwritten
+
+Property theorems for `pkg/readahead/immediate.go` (the scanner the batchers use).
+Quantifiers: every byte stream `data`, every read script (chunk sizes incl. 0-byte reads,
+an `io.EOF` or another error injected at any position, possibly together with bytes), every
+buffer size ≥ 1.  `run` is "call `Scan()` until it returns false".
+-/
 namespace Rare.C04
 
-theorem splitLines_nil : splitLines [] = [] := by
-  simp [splitLines, splitGo]
+/-- Calling `Scan()` until it answers false, with the fuel the driver uses. -/
+def Imm.run (bufSize : Nat) (data : Bytes) (script : List Step) : List (View × Bytes) × Bool × Imm :=
+  let fuel := data.length + script.length + 3
+  Imm.scanAll fuel fuel (Imm.init bufSize ⟨data, script⟩)
+
+private theorem run_good (bufSize : Nat) (data : Bytes) (script : List Step) (h : 1 ≤ bufSize) :
+    Good (Imm.init bufSize ⟨data, script⟩) [] := good_init _ _ h
+
+/-- The scanner always runs to completion: no call to `Scan()` fails to return and the
+    sequence of calls ends with `false`. -/
+theorem imm_terminates (bufSize : Nat) (data : Bytes) (script : List Step) (h : 1 ≤ bufSize) :
+    (Imm.run bufSize data script).2.1 = true := by
+  apply scanAll_done _ data _ (run_good bufSize data script h)
+  · simp [Imm.init]
+  · simp [Imm.init, Reader.measure]; omega
+  · simp [Imm.init, Imm.consumed]; omega
+
+/-- The tokens are exactly the lines of the bytes the reader delivered (everything read before
+    an error included), and those bytes are a prefix of the stream. -/
+theorem imm_tokens_eq_split (bufSize : Nat) (data : Bytes) (script : List Step) (h : 1 ≤ bufSize) :
+    (Imm.run bufSize data script).1.map (·.2) = splitLines (Imm.run bufSize data script).2.2.delivered ∧
+    (Imm.run bufSize data script).2.2.delivered <+: data := by
+  have hg := run_good bufSize data script h
+  have hdone := imm_terminates bufSize data script h
+  constructor
+  · have := scanAll_good _ _ hg hdone
+    simp only [List.nil_append] at this
+    exact this.symm
+  · have := scanAll_closed (closed_stream data) (data.length + script.length + 3)
+      (data.length + script.length + 3) hg (by simp [Imm.init])
+    exact ⟨_, this⟩
+
+/-- With a reader that never reports an error early, every chunking (incl. stalls) yields exactly
+    the lines of the whole stream: the result does not depend on the script or the buffer size. -/
+theorem imm_chunking_independent (bufSize : Nat) (data : Bytes) (script : List Step) (h : 1 ≤ bufSize)
+    (hs : ∀ st ∈ script, st.err = none) :
+    (Imm.run bufSize data script).1.map (·.2) = splitLines data := by
+  have hg := run_good bufSize data script h
+  have hdone := imm_terminates bufSize data script h
+  have hstream := scanAll_closed (closed_stream data) (data.length + script.length + 3)
+      (data.length + script.length + 3) hg (by simp [Imm.init])
+  have hdr := scanAll_closed closed_drained (data.length + script.length + 3)
+      (data.length + script.length + 3) hg (s := Imm.init bufSize ⟨data, script⟩)
+      ⟨by simpa [Imm.init] using hs, by simp [Imm.init]⟩
+  have heof := scanAll_eof _ _ hg hdone
+  have hrest := hdr.2 heof
+  have hd : (Imm.run bufSize data script).2.2.delivered = data := by
+    have := hstream
+    unfold Imm.run
+    rw [hrest] at this; simpa using this
+  rw [(imm_tokens_eq_split bufSize data script h).1, hd]
+
+/-- A slice handed out for a line still reads back as that line after all later scanning:
+    no later `Read` or buffer growth overwrites it. -/
+theorem imm_tokens_stable (bufSize : Nat) (data : Bytes) (script : List Step) (h : 1 ≤ bufSize) :
+    ∀ vb ∈ (Imm.run bufSize data script).1,
+      readView (Imm.run bufSize data script).2.2.arrays vb.1 = vb.2 :=
+  scanAll_views _ _ (run_good bufSize data script h)
+
+/-- The error callback fires at most once and only together with the end of the stream;
+    without a failing read it never fires. -/
+theorem imm_error_once (bufSize : Nat) (data : Bytes) (script : List Step) (h : 1 ≤ bufSize) :
+    ((Imm.run bufSize data script).2.2.errs = 0 ∨
+      ((Imm.run bufSize data script).2.2.errs = 1 ∧ (Imm.run bufSize data script).2.2.eof = true)) ∧
+    ((∀ st ∈ script, st.err ≠ some .fail) → (Imm.run bufSize data script).2.2.errs = 0) := by
+  have hg := run_good bufSize data script h
+  constructor
+  · exact scanAll_closed closed_errs _ _ hg (Or.inl (by simp [Imm.init]))
+  · intro hs
+    exact (scanAll_closed closed_nofail _ _ hg (s := Imm.init bufSize ⟨data, script⟩)
+      ⟨by simpa [Imm.init] using hs, by simp [Imm.init]⟩).2
+
+/-- The specification itself: lines are separated by `\n`, carry no `\n`, and re-joining them
+    (restoring the dropped `\r`s is impossible, so stated for CR-free input) gives the stream back. -/
+theorem splitLines_no_nl (data : Bytes) : ∀ l ∈ splitLines data, nl ∉ l := by
+  suffices h : ∀ (d cur : Bytes), nl ∉ cur → ∀ l ∈ splitGo cur d, nl ∉ l from h data [] (by simp)
+  intro d
+  induction d with
+  | nil =>
+    intro cur hc l hl
+    simp only [splitGo] at hl
+    split at hl
+    · simp at hl
+    · simp at hl; rw [hl]; exact hc
+  | cons b rest ih =>
+    intro cur hc l hl
+    simp only [splitGo] at hl
+    split at hl
+    · simp only [List.mem_cons] at hl
+      rcases hl with rfl | hl
+      · intro hmem
+        have : nl ∈ cur := (dropCR_prefix cur).subset hmem
+        exact hc this
+      · exact ih [] (by simp) l hl
+    · rename_i hb
+      exact ih (cur ++ [b]) (by simp; exact ⟨hc, fun e => hb e.symm⟩) l hl
+
+/-- Non-vacuity: a concrete stream with CRLF, an empty line, a line longer than the buffer, a
+    stalled read and an injected failure alongside data. -/
+example : (Imm.run 2 [97, 13, 10, 10, 98, 98, 98, 10, 99] [⟨1, none⟩, ⟨0, none⟩, ⟨5, none⟩]).1.map (·.2)
+    = [[97], [], [98, 98, 98], [99]] := by decide
+
+example : (Imm.run 2 [97, 10, 98, 10] [⟨1, none⟩, ⟨2, some .fail⟩]).2.2.errs = 1 := by decide
 
 end Rare.C04
